@@ -295,7 +295,7 @@ def evaluate(case):
 
 def cases(tier, seed):
     out = [{"kind": "facade", "fluid": f, "pc": list(pc)} for f, pc in
-           itertools.product(fluids(seed), [(-72.2, 653.0), (-102.2, 648.5)])]
+           itertools.product(fluids(seed), [(-72.2, 653.0), (-102.2, 648.5), (0.0, 640.0)])]  # 0.0 F: a legal pseudocritical temperature (gravity ~1.05) that is falsy
     conts = [[0.0, 0.0, 0.0], [0.03, 0.012, 0.018]] + ([[0.1, 0.0, 0.0], [0.0, 0.08, 0.0], [0.0, 0.0, 0.12]]
                                                         if tier == "thorough" else [])
     gs = [0.6, 0.8] + ([0.7, 1.0, 1.2] if tier == "thorough" else [])
